@@ -3,7 +3,9 @@
 Require Import Cirbo.Model.Base Cirbo.Model.Gate Cirbo.Model.Circuit Cirbo.Model.Traverse Cirbo.Model.Eval
         Cirbo.Model.Connect Cirbo.Model.WF.
 Require Import Cirbo.Generated.CircuitCore Cirbo.Generated.CircuitAlgos.
-Require Import Cirbo.Proofs.CircuitAlgosGen Cirbo.Proofs.CircuitAlgosGen2 Cirbo.Proofs.CircuitAlgosGen3.
+Require Import Cirbo.Model.Bench Cirbo.Generated.Converters Cirbo.Proofs.ConvertersGen.
+Require Import Cirbo.Proofs.CircuitAlgosGen Cirbo.Proofs.CircuitAlgosGen2 Cirbo.Proofs.CircuitAlgosGen3
+        Cirbo.Proofs.CircuitAlgosGen4 Cirbo.Proofs.CircuitAlgosGen5 Cirbo.Proofs.CircuitAlgosGen6.
 
 (* keys_ok c: the gate map has no repeated key (true of every Python dict; wf_gkeys of WF) *)
 Definition keys_ok (c : circuit) : Prop := NoDup (dkeys (gates c)).
@@ -21,31 +23,31 @@ Theorem algorithms_regenerated :
   (forall c inv fuel r, gen_top_sort fuel c inv = Ok r -> Forall (fun p => get_gate c (fst p) = Ok (snd p)) r) /\
   (* connect_circuit and its wrappers *)
   (forall c other tc oc right name ap, keys_ok other ->
-     gen_connect_circuit (S (size other)) c other tc oc right name ap = connect_circuit c other tc oc right name ap) /\
+     gen_connect_circuit size_fuel c other tc oc right name ap = connect_circuit c other tc oc right name ap) /\
   (forall c other tc name ap, keys_ok other ->
-     gen_connect_left (S (size other)) c other tc name ap = connect_left c other tc name ap) /\
+     gen_connect_left size_fuel c other tc name ap = connect_left c other tc name ap) /\
   (forall c other oc name ap, keys_ok other ->
-     gen_connect_right (S (size other)) c other oc name ap = connect_right c other oc name ap) /\
+     gen_connect_right size_fuel c other oc name ap = connect_right c other oc name ap) /\
   (forall c other name ap, keys_ok other ->
-     gen_connect_inputs (S (size other)) c other name ap = connect_inputs c other name ap) /\
+     gen_connect_inputs size_fuel c other name ap = connect_inputs c other name ap) /\
   (forall c other tc oc right name ap, keys_ok other ->
-     gen_extend_circuit (S (size other)) c other tc oc right name ap = extend_circuit c other tc oc right name ap) /\
+     gen_extend_circuit size_fuel c other tc oc right name ap = extend_circuit c other tc oc right name ap) /\
   (forall c other name ap, keys_ok other ->
-     gen_add_circuit (S (size other)) c other name ap = add_circuit c other name ap) /\
+     gen_add_circuit size_fuel c other name ap = add_circuit c other name ap) /\
   (* __copy__, Block.into_circuit *)
-  (forall c, keys_ok c -> gen___copy__ (S (size c)) c = copy_circuit c) /\
+  (forall c, keys_ok c -> gen___copy__ size_fuel c = copy_circuit c) /\
   (forall b c, gen_Block_into_circuit b c = block_into_circuit c b) /\
   (* evaluation *)
-  (forall c a, keys_ok c -> gen_evaluate_full_circuit (S (size c)) c a = evaluate_full_circuit c a) /\
+  (forall c a, keys_ok c -> gen_evaluate_full_circuit size_fuel c a = evaluate_full_circuit c a) /\
   (forall c a outs fuel, agree c (gen_evaluate_circuit fuel c a outs) (evaluate_circuit_fuel fuel c a outs)) /\
   (forall c a outs,
      agree c (gen_evaluate_circuit (eval_fuel c (match outs with Some o => o | None => outputs c end)) c a outs)
            (evaluate_circuit c a outs)) /\
-  (forall c a, agree c (gen_evaluate_circuit_outputs (eval_fuel c (outputs c)) c a) (evaluate_circuit_outputs c a)) /\
-  (forall c vals, agree c (gen_evaluate (eval_fuel c (outputs c)) c vals) (evaluate c vals)) /\
+  (forall c a, agree c (gen_evaluate_circuit_outputs outputs_fuel c a) (evaluate_circuit_outputs c a)) /\
+  (forall c vals, agree c (gen_evaluate outputs_fuel c vals) (evaluate c vals)) /\
   (forall c vals i,
-     agree c (gen_evaluate_at (2 * (1 + sum_arity c) + 1) c vals (Z.of_nat i)) (evaluate_at c vals i)) /\
-  (forall c, agree c (gen_get_truth_table (eval_fuel c (outputs c)) c) (get_truth_table c)).
+     agree c (gen_evaluate_at at_fuel c vals (Z.of_nat i)) (evaluate_at c vals i)) /\
+  (forall c, agree c (gen_get_truth_table outputs_fuel c) (get_truth_table c)).
 Proof.
   repeat match goal with |- _ /\ _ => split end.
   - exact gen_size_eq.
@@ -95,14 +97,14 @@ Proof.
 Qed.
 
 Theorem evaluators_regenerated_wf : forall c, WF c ->
-  (forall a, gen_evaluate_full_circuit (S (size c)) c a = evaluate_full_circuit c a) /\
+  (forall a, gen_evaluate_full_circuit size_fuel c a = evaluate_full_circuit c a) /\
   (forall a outs,
      gen_evaluate_circuit (eval_fuel c (match outs with Some o => o | None => outputs c end)) c a outs
      = evaluate_circuit c a outs) /\
-  (forall a, gen_evaluate_circuit_outputs (eval_fuel c (outputs c)) c a = evaluate_circuit_outputs c a) /\
-  (forall vals, gen_evaluate (eval_fuel c (outputs c)) c vals = evaluate c vals) /\
-  (forall vals i, gen_evaluate_at (2 * (1 + sum_arity c) + 1) c vals (Z.of_nat i) = evaluate_at c vals i) /\
-  gen_get_truth_table (eval_fuel c (outputs c)) c = get_truth_table c.
+  (forall a, gen_evaluate_circuit_outputs outputs_fuel c a = evaluate_circuit_outputs c a) /\
+  (forall vals, gen_evaluate outputs_fuel c vals = evaluate c vals) /\
+  (forall vals i, gen_evaluate_at at_fuel c vals (Z.of_nat i) = evaluate_at c vals i) /\
+  gen_get_truth_table outputs_fuel c = get_truth_table c.
 Proof.
   intros c W. pose proof (WF_no_self_loop c W) as Hn.
   repeat match goal with |- _ /\ _ => split end; intros.
@@ -121,3 +123,65 @@ Theorem algorithms_corners :
   (gen_evaluate_circuit (eval_fuel self_loop_circuit ["g"]) self_loop_circuit [] None = Err PyKeyError /\
    evaluate_circuit self_loop_circuit [] None = Err OutOfFuel).
 Proof. split; [exact top_sort_dup_keys_differs|exact evaluate_circuit_corner]. Qed.
+
+(* ---------------------------------------------------------------- second group *)
+Theorem algorithms_regenerated_2 :
+  (* make_block_from_slice: the work list starts in another order (Python: hash order of a set) *)
+  (forall c name ins outs, keys_ok c ->
+     slice_agree (gen_make_block_from_slice (S (size c)) c name ins outs) (make_block_from_slice c name ins outs)) /\
+  (forall fuel c name ins outs c' b,
+     gen_make_block_from_slice fuel c name ins outs = Ok (c', b) -> get_block c' name = Ok b) /\
+  (* get_gates_truth_table, format_circuit, into_bench *)
+  (forall c, keys_ok c -> gen_get_gates_truth_table size_fuel c = get_gates_truth_table c) /\
+  (forall c, gen_format_circuit c = Ok (format_circuit c)) /\
+  (forall c fresh, gen_into_bench c fresh = generated_into_bench c fresh) /\
+  (forall c fresh c', gen_into_bench c fresh = Ok c' <-> into_bench c fresh = Ok c') /\
+  (forall c fresh,
+     (forall x g, In (x, g) (gates c) -> gtyp g = LT \/ gtyp g = LEQ -> length (gops g) <> 1%nat) ->
+     gen_into_bench c fresh = into_bench c fresh) /\
+  (* _traverse_circuit, dfs, bfs: the log of hook calls and yields *)
+  (forall c mode starts inverse tsu abort, (tsu = true -> keys_ok c) ->
+     gen__traverse_circuit (traverse_fuel c (start_queue c starts inverse)) size_fuel c mode starts inverse tsu abort
+     = traverse mode inverse c starts tsu abort) /\
+  (forall c starts inverse tsu abort, (tsu = true -> keys_ok c) ->
+     gen_dfs (traverse_fuel_of starts inverse) size_fuel c starts inverse tsu abort
+     = traverse DFS inverse c starts tsu abort) /\
+  (forall c starts inverse tsu abort, (tsu = true -> keys_ok c) ->
+     gen_bfs (traverse_fuel_of starts inverse) size_fuel c starts inverse tsu abort
+     = traverse BFS inverse c starts tsu abort) /\
+  (* validation.check_circuit_has_no_cycles *)
+  (forall c starts,
+     gen_check_circuit_has_no_cycles (traverse_fuel_of starts false) size_fuel c starts
+     = check_circuit_has_no_cycles_from c starts).
+Proof.
+  repeat match goal with |- _ /\ _ => split end.
+  - exact gen_make_block_from_slice_agree.
+  - exact gen_make_block_from_slice_block.
+  - exact gen_get_gates_truth_table_eq.
+  - exact gen_format_circuit_eq.
+  - exact gen_into_bench_eq.
+  - exact gen_into_bench_ok.
+  - exact gen_into_bench_model.
+  - exact gen_traverse_circuit_eq.
+  - exact gen_dfs_eq.
+  - exact gen_bfs_eq.
+  - exact gen_check_circuit_has_no_cycles_eq.
+Qed.
+
+Theorem slice_agree_spec : forall (g : res (circuit * block)) (h : res circuit),
+  slice_agree g h <->
+  ((do p <- g; Ok (fst p)) = h \/
+   (exists e1 e2, g = Err e1 /\ h = Err e2 /\
+      (e1 = GateDoesntExistError \/ e1 = CreateBlockError) /\ (e2 = GateDoesntExistError \/ e2 = CreateBlockError))).
+Proof. intros. reflexivity. Qed.
+
+Theorem slice_agree_consequences : forall (g : res (circuit * block)) (h : res circuit), slice_agree g h ->
+  (forall c', (exists b, g = Ok (c', b)) <-> h = Ok c') /\ is_ok g = is_ok h.
+Proof.
+  intros g h H. split; [intros c'; exact (slice_agree_ok g h c' H)|exact (slice_agree_is_ok g h H)].
+Qed.
+
+Theorem slice_corner_real :
+  gen_make_block_from_slice 4 slice_corner "B" [] ["a"; "b"] = Err CreateBlockError /\
+  make_block_from_slice slice_corner "B" [] ["a"; "b"] = Err GateDoesntExistError.
+Proof. exact slice_error_kind_corner. Qed.
